@@ -24,7 +24,7 @@ def run(chk, flags=FLAGS, reload_kinds=(), tag="c01"):
     mc(chk, ["Agent_thorough.cfg", "Agent_quick2.cfg"] if thorough else ["Agent_quick2.cfg"])
     rnd = random.Random(chk.seed)
     behs = chk.tlc_simulate("Agent", "Agent_thorough.cfg", 900 if thorough else 24, 120, chk.seed)
-    scripts = A.stories() + [A.script_from_behaviour(b, "sim%d" % i, rnd) for i, b in enumerate(behs)]
+    scripts = A.stories() + (A.big_stories() if flags == FLAGS else []) + [A.script_from_behaviour(b, "sim%d" % i, rnd) for i, b in enumerate(behs)]
     scripts += [A.random_script("rnd%d" % i, rnd, reload_kinds) for i in range(3000 if thorough else 26)]
     n, ev, rej, consts = A.run_scripts(chk, scripts, flags, tag)
     A.handle(chk, rej, flags, tag, consts)
